@@ -289,6 +289,9 @@ def oracle(ctx):
     from props import c01_e2e
     c01_e2e.serializer_oracle(ctx)
     c01_e2e.e2e_oracle(ctx)
+    if not ctx.search_mode:
+        from props import c01_tz
+        c01_tz.run(ctx)
 
 
 def replay(ctx, case):
